@@ -244,6 +244,10 @@ def tab9(units, R):
         # plain bytes: the comparison continues exactly when the two bytes are equal (up to case when insensitive)
         pr, nr = None, None
         for sg in segs:
+            if ptr not in sg.start_root or nam not in sg.start_root:
+                raise AnalysisBroken('TAB9: %s: the %s is read through an index bounded by a length handed in (%s); this rule evaluates '
+                                     'cursors that end at a byte of the text' % (fn.name, 'pointer token' if ptr not in sg.start_root else 'key',
+                                                                                ptr if ptr not in sg.start_root else nam))
             pr, nr = sg.start_root[ptr], sg.start_root[nam]
             break
         cont_segs = [(sg, bp.pair_relation(ex, sg, (sg.start_root[nam], 0), (sg.start_root[ptr], 0)), sg.adv(ptr) == 1 and sg.adv(nam) == 1)
